@@ -394,6 +394,7 @@ func (r *Run) report(updateLock, verbose, noEvidence bool) int {
 		"functions_under_contract":  e.verified,
 		"obligations_by_kind":       byKind,
 		"discharged_by_backend":     bySolver,
+		"discharged_by_query_kind":  byVariant,
 		"solver_wall_s":             round2(solverSecs),
 		"cover_queries":             len(e.obls) - total,
 		"lemmas":                    r.lemmaList(),
